@@ -721,6 +721,9 @@ func (t *tr) call(c *ast.CallExpr, stmt bool) ([]string, []T) {
 			}
 			return []string{"(" + a + " ++ [" + b + "])"}, []T{at}
 		case "make":
+			if ext := t.findExt("make(" + t.p.text(c.Args[0]) + ")"); ext != nil {
+				return []string{ext.Value}, []T{ext.T}
+			}
 			ty := t.g.goT(t.typeOf(c))
 			if !strings.HasPrefix(ty.Lean, "List ") && ty.Kind != "str" && ty.Kind != "strlist" {
 				t.fail(c, "make of %s", ty.Lean)
@@ -1106,7 +1109,10 @@ func (t *tr) expr(e ast.Expr) (string, T) {
 		if !t.mayPanic {
 			t.fail(x, "index expression in a function classified as non-panicking")
 		}
-		s, _ := t.expr(x.X)
+		s, st := t.expr(x.X)
+		if bt.Kind == "bad" || bt.Kind == "opaque" {
+			bt = st
+		}
 		i, _ := t.expr(x.Index)
 		n := t.fresh()
 		switch bt.Kind {
@@ -1116,6 +1122,15 @@ func (t *tr) expr(e ast.Expr) (string, T) {
 		case "strlist":
 			t.emit("let %s ← GoRt.elemAt %s %s", n, s, i)
 			return n, tStr
+		}
+		if strings.HasPrefix(bt.Lean, "List ") {
+			t.emit("let %s ← GoRt.listAt %s %s", n, s, i)
+			el := strings.TrimPrefix(bt.Lean, "List ")
+			el = strings.TrimSuffix(strings.TrimPrefix(el, "("), ")")
+			if el == "List Bytes" {
+				return n, tStrList
+			}
+			return n, T{"opaque", el}
 		}
 		t.fail(x, "index on %s", bt.Kind)
 	case *ast.SliceExpr:
@@ -1127,6 +1142,19 @@ func (t *tr) expr(e ast.Expr) (string, T) {
 			t.fail(x, "slice expression in a function classified as non-panicking")
 		}
 		bt := t.g.goT(t.typeOf(x.X))
+		if (bt.Kind == "strlist" || strings.HasPrefix(bt.Lean, "List ")) && !x.Slice3 {
+			s, st := t.expr(x.X)
+			lo, hi := "(0 : Int)", "("+s+".length : Int)"
+			if x.Low != nil {
+				lo, _ = t.expr(x.Low)
+			}
+			if x.High != nil {
+				hi, _ = t.expr(x.High)
+			}
+			n := t.fresh()
+			t.emit("let %s ← GoRt.sliceList %s %s %s", n, s, lo, hi)
+			return n, st
+		}
 		if bt.Kind != "str" || x.Slice3 {
 			t.fail(x, "slice of %s", bt.Kind)
 		}
@@ -1770,7 +1798,30 @@ func (t *tr) rangeStmt(x *ast.RangeStmt) {
 		}
 		if id.Name != "_" {
 			// `for i := range xs`: supported when `i` is only used as `xs[i]` (checked: every use of i is that index)
-			if x.Value != nil || !onlyIndexUses(x.Body, id.Name, t.p.text(x.X)) {
+			if x.Value != nil {
+				// `for i, v := range xs`: iterate over (index, element) pairs
+				t.push()
+				iv := t.declare(id.Name)
+				t.ltypes[iv] = "Int"
+				vv := "_"
+				if vid, ok := x.Value.(*ast.Ident); ok && vid.Name != "_" {
+					vv = t.declare(vid.Name)
+					t.ltypes[vv] = elemT.Lean
+				}
+				t.emit("for %s_it in GoRt.enum %s do", iv, coll)
+				t.ind++
+				t.emit("let mut %s : Int := %s_it.1", iv, iv)
+				if vv != "_" {
+					t.emit("let mut %s := %s_it.2", vv, iv)
+				}
+				t.inRange++
+				t.block(x.Body.List)
+				t.inRange--
+				t.ind--
+				t.pop()
+				return
+			}
+			if !onlyIndexUses(x.Body, id.Name, t.p.text(x.X)) {
 				t.fail(x, "range with an index variable that is used other than as %s[%s]", t.p.text(x.X), id.Name)
 			}
 			aliasKey = t.p.text(x.X) + "[" + id.Name + "]"
